@@ -137,6 +137,12 @@ def check(case, res):
                              ('spike_templates', st)):
                 if not np.array_equal(np.asarray(mod[key]).astype(np.float64), exp.astype(np.float64)):
                     bad.append(('model.' + key, 'differs-from-files', describe(exp), describe(mod[key])))
+            # each spike keeps its time, in seconds too (the merged dataset runs at the probes' rate)
+            sr = float(truths[0]['spec']['sample_rate'])
+            if 'spike_times' in mod and not np.allclose(np.asarray(mod['spike_times'], dtype=np.float64),
+                                                        t.astype(np.int64) / sr, rtol=1e-13, atol=0):
+                bad.append(('model.spike_times', 'seconds-differ-from-samples-over-rate',
+                            describe(t.astype(np.int64) / sr), describe(mod['spike_times'])))
     if res.get('second_merge_differs'):
         bad.append(('second-merge', 'output-differs-from-first-merge', 'the same files',
                     res['second_merge_differs']))
@@ -168,6 +174,8 @@ def build_probes(case):
             p['id_dtype'] = ['uint32', 'int32', 'int64'][(k + r) % 3]
             p['time_dtype'] = ['uint64', 'int64', 'int32', 'uint32'][(k + r) % 4]
         p['amp_base'] = 1.0 + 16.0 * k
+        # every probe of a merge has the same rate: a round one, or a calibrated one with many decimals
+        p['sample_rate'] = 100.0 if len(case['tuple']) % 2 == 0 else 30000.246875
         probes.append(p)
     return probes
 
